@@ -1438,7 +1438,7 @@ document (`C01.apply_valid`) and its ends stay pair-aligned (`addMark_applies` /
 two results are equal by the convergence theorems above.  `_partial`: `commuteGuard` is not forced for mark steps
 (a guard-free proof needs a target-based success criterion for `replaceKids` — `replaceKids_undoG` /
 `replaceKids_merged` are of that kind — plus `RightRel` / `LeftRel` between `db` and the expected result, i.e. how a
-mark step changes the tree right of a position; not available), and the inside-the-gap position is open. -/
+mark step changes the tree right of a position; not available), and the inside-the-gap position is `commute_succeeds_around_mark_gap_partial` (last section). -/
 
 /-- **replace-around step vs. mark step strictly before its range: both rebased steps apply** (the documents are
     compared by the convergence theorems) -/
@@ -1947,6 +1947,113 @@ theorem commute_succeeds_around_gap (S : Schema) (htr : CompatTrans S) (d da db 
       (apply_replaceAround_struct S _ _ f t gf gt sl ins hb)
   exact around_applies_of_parts S _ _ f _ gf _ sl ins st ⟨ctxg kN', 0, 0⟩ I' hslice' rfl rfl hI' hfr hst
 
+
+/-- **a mark step strictly inside the kept gap, inside an element node of the gap content** (`gapGuard` with the open
+    depths of the slice the mark step re-marks; e.g. marking text of a paragraph that is being wrapped or lifted):
+    the mark step is the replace of its range by the re-marked slice, so `commute_succeeds_around_gap` applies; the
+    rebased mark step applies because the result of the replace-around step is valid and the moved ends stay
+    pair-aligned.  `_partial`: the guard is not forced for mark steps (it excludes marking the content of the very
+    textblock that `set_node_markup` / `set_block_type` re-create — there `ParentStable` is the real condition). -/
+theorem commute_succeeds_around_mark_gap_partial (S : Schema) (htr : CompatTrans S) (hts : TextLoop S)
+    (d da db : Node) (f t gf gt ins : Nat) (sl : Slice) (st : Bool) (f2 t2 : Nat) (mk : Mark) (M : Step)
+    (hM : M = .addMark f2 t2 mk ∨ M = .removeMark f2 t2 mk)
+    (hv : C01.Valid S d) (hpv : C01.PayloadValid S d (.replaceAround f t gf gt sl ins st))
+    (hn : fnorm d.kids = true) (hsn : fnorm sl.content = true)
+    (hs : AroundShape f t gf gt sl ins) (hcl : sl.openStart = 0 ∧ sl.openEnd = 0)
+    (h : gf < f2) (h' : t2 < gt)
+    (ha : S.apply (.replaceAround f t gf gt sl ins st) d = .ok da) (hb : S.apply M d = .ok db)
+    (hdaal : alignedAt da.kids f = true ∧ alignedAt da.kids (f + sl.toks.length + (gt - gf)) = true)
+    (old : Slice) (hold : d.slice f2 t2 = .ok old) (hg : gapGuard d.kids gf gt f2 t2 old = true)
+    (hstable : M = .addMark f2 t2 mk → ParentStable S d da f2 t2
+      ((f2 : Int) + ((ins : Int) - ((gf : Int) - f))).toNat) :
+    ∃ M' dab, M.map (Step.replaceAround f t gf gt sl ins st).getMap = some M' ∧
+      (Step.replaceAround f t gf gt sl ins st).map M.getMap = some (.replaceAround f t gf gt sl ins st) ∧
+      S.apply M' da = .ok dab ∧ S.apply (.replaceAround f t gf gt sl ins st) db = .ok dab := by
+  obtain ⟨hsp, hto⟩ := markStep_span f2 t2 mk M hM
+  obtain ⟨old', slM, hold', hos, hslMn, hslMv, hb2⟩ :=
+    markStep_as_replace_valid S hts.stable d db f2 t2 mk M hM hn hv hb
+  rw [hold] at hold'; cases hold'
+  have F := markStep_facts S d db f2 t2 mk M hM hb
+  obtain ⟨hle, ht2⟩ := F.range
+  have hgo := hs.2.2
+  have hg' : gapGuard d.kids gf gt f2 t2 slM = true := by
+    unfold gapGuard at hg ⊢; rw [hos]; exact hg
+  obtain ⟨A', R', dab0, eA, eR, hA'db, hR'da⟩ := commute_succeeds_around_gap S htr d db da f t gf gt ins f2 t2 sl slM st
+    false hv hpv hslMv hn hslMn hsn hs hcl h h' hb2 ha hdaal hg'
+  obtain ⟨hdb, _, hlp, hlenM⟩ := apply_replace_splice S d db f2 t2 slM false hb2
+  have hlenS : slM.toks.length = t2 - f2 := by
+    have h1 := F.size
+    rw [← ftoks_length, ← ftoks_length, hdb, splice_length _ _ _ _ hle hlp] at h1
+    omega
+  -- the replace-around step is unchanged
+  obtain ⟨eA2, _⟩ := (rebase_around_separated f t gf gt ins f2 t2 sl slM st false hgo hle).2.1 h h'
+  rw [eA2] at eA
+  have e1 : ((t : Int) + (slM.size - ((t2 : Int) - f2))).toNat = t := by omega
+  have e2 : ((gt : Int) + (slM.size - ((t2 : Int) - f2))).toNat = gt := by omega
+  rw [e1, e2] at eA
+  simp only [Option.some.injEq] at eA
+  subst eA
+  -- the mark step on `da`
+  have hmap := (rebase_markup_not_dropped_around M f2 t2 hsp hle f t gf gt sl ins st hgo).2.1 h h'
+  generalize hgdef : (fun p : Nat => ((p : Int) + ((ins : Int) - ((gf : Int) - f))).toNat) = g at hmap
+  have hgv : ∀ p, gf ≤ p → g p = f + ins + (p - gf) := by
+    intro p hp; rw [← hgdef]; show ((p : Int) + ((ins : Int) - ((gf : Int) - f))).toNat = _; omega
+  obtain ⟨hdaL, hl, hXl, hYl⟩ := apply_around_aroundL S d da f t gf gt sl ins st hs ha
+  obtain ⟨ty, a, m, K, K', rfl, rfl, hrK⟩ := fromReplace_parts S d db f2 t2 slM
+    (apply_replace_fromReplace S _ _ _ _ _ false hb2)
+  obtain ⟨al1, al2⟩ := replaceKids_aligned S ty K f2 t2 slM K' hrK
+  obtain ⟨ty', a', m', k0, Ka, e0, rfl⟩ := apply_around_root S _ da f t gf gt sl ins st ha
+  cases e0
+  simp only [Node.kids] at hn hdaL hl al1 al2 ht2 hlp hdaal ⊢
+  have hvda : S.checkNode (.elem ty a m Ka) = true := C01.apply_valid S _ _ _ hv hpv ha
+  have hna : fnorm Ka = true := by
+    obtain ⟨gap, I, hgap, ho1, ho2, hinst, ha2, hio, hin, hisz, _⟩ :=
+      around_as_replace S (.elem ty a m K) _ f t gf gt ins sl st hn hsn hs ha
+    exact apply_replace_norm S (.elem ty a m K) _ f t I false hn hin ha2
+  have htokda : ∀ p, gf < p → p < gt → (ftoks Ka)[f + ins + (p - gf) - 1]? = (ftoks K)[p - 1]? ∧
+      (ftoks Ka)[f + ins + (p - gf)]? = (ftoks K)[p]? := by
+    intro p hp1 hp2
+    have g1 := aroundL_getElem?_gap (ftoks K) (sl.toks.take ins) (sl.toks.drop ins) f gf gt t (p - gf - 1) hgo hl (by omega)
+    have g2 := aroundL_getElem?_gap (ftoks K) (sl.toks.take ins) (sl.toks.drop ins) f gf gt t (p - gf) hgo hl (by omega)
+    rw [hXl] at g1 g2
+    rw [hdaL]
+    constructor
+    · rw [show f + ins + (p - gf) - 1 = f + ins + (p - gf - 1) by omega, g1]; congr 1; omega
+    · rw [g2]; congr 1; omega
+  have hlenda : (ftoks Ka).length = f + ins + (gt - gf) + (sl.toks.drop ins).length + ((ftoks K).length - t) := by
+    rw [hdaL, aroundL_length _ _ _ _ _ _ _ hgo hl, hXl]
+  obtain ⟨dab, hMda⟩ := markStep_applies S hts (.elem ty a m Ka) f2 t2 mk g M hM hvda hna ⟨_, _, _, _, rfl⟩
+    (by rw [hgv f2 (by omega), hgv t2 (by omega)]; omega)
+    (by simp only [Node.kids]; rw [hgv t2 (by omega), ← ftoks_length, hlenda]; omega)
+    (by rw [hgv f2 (by omega)]
+        exact alignedAt_shift Ka K _ f2 hna hn (by omega) (by omega) (htokda f2 h (by omega)).1
+          (htokda f2 h (by omega)).2 al1)
+    (by rw [hgv t2 (by omega)]
+        exact alignedAt_shift Ka K _ t2 hna hn (by omega) (by omega) (htokda t2 (by omega) h').1
+          (htokda t2 (by omega) h').2 al2)
+  have hA : (Step.replaceAround f t gf gt sl ins st).map M.getMap = some (.replaceAround f t gf gt sl ins st) := by
+    rw [getMap_of_touch M f2 t2 hto]
+    exact replaceAround_map_empty f t gf gt sl ins st ⟨hgo.1, hgo.2.2⟩
+  have hM' : M.mapPos g = .addMark (g f2) (g t2) mk ∨ M.mapPos g = .removeMark (g f2) (g t2) mk := by
+    rcases hM with rfl | rfl
+    · exact .inl rfl
+    · exact .inr rfl
+  have Fda := markStep_facts S _ dab (g f2) (g t2) mk (M.mapPos g) hM' hMda
+  have n1 := Fda.norm hna
+  have n2 : fnorm dab0.kids = true := by
+    obtain ⟨gap, I, hgap, ho1, ho2, hinst, ha2, hio, hin, hisz, _⟩ :=
+      around_as_replace S _ _ f t gf gt ins sl st (F.norm hn) hsn hs hA'db
+    exact apply_replace_norm S _ _ f t I false (F.norm hn) hin ha2
+  have : dab = dab0 := by
+    rcases hM with rfl | rfl
+    · have hst := hstable rfl
+      rw [show ((f2 : Int) + ((ins : Int) - ((gf : Int) - f))).toNat = g f2 by rw [← hgdef]] at hst
+      exact (commute_around_mark_partial S _ _ _ dab dab0 f t gf gt ins sl st f2 t2 _ _ mk _ hle hs
+        (.inl ⟨h, h'⟩) ha hb hmap hA hMda hA'db hst).2 n1 n2
+    · exact (commute_around_mark_unguarded S _ _ _ dab dab0 f t gf gt ins sl st f2 t2 mk _ _ _ hle hs
+        (.inr ⟨rfl, .inr (.inl ⟨h, h'⟩)⟩) ha hb hmap hA hMda hA'db).2 n1 n2
+  subst this
+  exact ⟨_, dab, hmap, hA, hMda, hA'db⟩
 
 /-- the guard holds: in `doc(quote(p("a"), p("b")))`, lifting both paragraphs out of the quote
     (`replaceAround 0 8 1 7 ⟨[], 0, 0⟩ 0`, gap `[1, 7)`) against typing inside the second paragraph (`5 … 5`):
